@@ -35,7 +35,8 @@ LEVEL_TEXT = ("Exploration: thousands of trees (all shape classes incl. single n
               "Each extractor object is queried repeatedly with different arguments."
               " Generated trees come in several representations of the same values (strided, other dtypes / lists, one array as two columns, read-only where the harness never writes) and half of them were queried, a third put through aborted operations, before use. Feature queries come in random order with repeats; half of the populations consist of trees naming one source file."
               " Trees derived by the library from used ones; size sweep to 2050 nodes."
-              " BranchTree instances as inputs.")
+              " BranchTree instances as inputs."
+              " One tree in six is also measured from inside the callbacks of a traversal of another tree.")
 LEVEL_NOTE = ("Encodes these readings: node branch order = depth of a critical node in the branch "
               "tree; L-Measure branch order = furcations on the root path, ends included; tilt = "
               "the smaller angle at the bifurcation between the ray to the parent and a daughter "
